@@ -70,7 +70,7 @@ static void EnterDefine(char* Name, char* Definition) {
     for (z = 0; z < 256; Neu->Compiled[z++] = l)
         ;
     for (z = 0; z < l - 1; z++) {
-        Neu->Compiled[(unsigned int)Neu->TransFrom[z]] = l - (z + 1);
+        Neu->Compiled[((unsigned int)Neu->TransFrom[z]) & 0xff] = l - (z + 1);
     }
     FirstDefine = Neu;
 }
@@ -191,8 +191,9 @@ static Boolean ExpandDefines_NErl(char inp) {
 
 #define t_toupper(ch) ((CaseSensitive) ? (ch) : (as_toupper(ch)))
 
-void ExpandDefines(char* Line) {
+void ExpandDefines(as_dynstr_t* p_line) {
     PDefinement Lauf;
+    char*       Line = p_line->p_str;
     sint        LPos, Diff, p, p2, p3, z, z2, FromLen, ToLen, LineLen;
 
     Lauf = FirstDefine;
@@ -219,14 +220,27 @@ void ExpandDefines(char* Line) {
                         z--;
                     }
                     if (z2 >= 0) {
-                        p2 += Lauf->Compiled[(unsigned int)t_toupper(
-                                Line[p2 + FromLen - 1])];
+                        p2 += Lauf->Compiled[((unsigned int)t_toupper(
+                                                      Line[p2 + FromLen - 1]))
+                                              & 0xff];
                     }
                 }
                 if (z2 == -1) {
                     if (((p2 == 0) || (!ExpandDefines_NErl(Line[p2 - 1])))
                         && ((p2 + FromLen == p)
                             || (!ExpandDefines_NErl(Line[p2 + FromLen])))) {
+                        if (Diff > 0) {
+                            size_t Needed = strlen(Line) + Diff + 1;
+
+                            /* the line grows: make room first */
+
+                            if (Needed > p_line->capacity) {
+                                if (as_dynstr_realloc(p_line, as_dynstr_roundup_len(Needed))) {
+                                    return;
+                                }
+                                Line = p_line->p_str;
+                            }
+                        }
                         if (Diff != 0) {
                             memmove(Line + p2 + ToLen, Line + p2 + FromLen,
                                     strlen(Line) - p2 - FromLen + 1);
